@@ -38,8 +38,8 @@ RULE = ("documents generated as text from a spec: 0-4 @string definitions (befor
         "after (duplicated with another content, the first wins) / twice after / between two uses / never, with or without "
         "failed or foreign blocks (unterminated entry, @string without `=`, entry with a duplicated key, entry with a duplicated "
         "field name, comments, preamble) standing between the definition and the uses; a bounded grid (every placement x with / "
-        "without separators) and a random part, names from the plain pool or from the alphabet. EVERY document is parsed with "
-        "EVERY stack: parse_stack=default_parse_stack(allow_inplace_modification=False), default_parse_stack(True), "
+        "without separators, each parsed with EVERY stack below) and a random part (each document parsed with the first and the "
+        "last-but-one stack below and four of the others), names from the plain pool or from the alphabet. Stacks: parse_stack=default_parse_stack(allow_inplace_modification=False), default_parse_stack(True), "
         "[Resolve(False), RemoveEnclosing(True)], [Resolve(False), RemoveEnclosing(False)], [Resolve(True), RemoveEnclosing(False)], "
         "append_middleware=[NormalizeFieldKeys(True / False)], [a caller's identity BlockMiddleware in copy mode], [a caller's "
         "LibraryMiddleware returning a deep copy] after the default stack (all judged by the default-parsing oracle and compared "
@@ -319,10 +319,19 @@ def placement_doc(rng, place=None, sep=None):
 
 
 def placement_cases(rng, tier):
-    docs = [placement_doc(rng, place, sep) for place in PLACEMENTS for sep in (False, True)]
-    docs += [placement_doc(rng) for _ in range(110 if tier == "quick" else 2500)]
-    for doc in docs:
-        for stack, _ in STACKS:
+    """bounded grid: every placement x with / without separators x EVERY stack; random part: every document with the two
+    central copy-mode stacks (whole default stack, resolution alone) and four of the nine others"""
+    names = [st for st, _ in STACKS]
+    for place in PLACEMENTS:
+        for sep in (False, True):
+            doc = placement_doc(rng, place, sep)
+            for stack in names:
+                yield {"stream": "copy-placement", "input": {"doc": doc, "op": 114, "stack": stack}}
+    central = ["dflt-copy", "resolve-copy"]
+    others = [st for st in names if st not in central]
+    for _ in range(100 if tier == "quick" else 3000):
+        doc = placement_doc(rng)
+        for stack in central + rng.sample(others, 4):
             yield {"stream": "copy-placement", "input": {"doc": doc, "op": 114, "stack": stack}}
 
 
@@ -647,10 +656,16 @@ def impl(case):
     split0 = bibtexparser.parse_string(text, parse_stack=[])
     raw = [b.ignore_error_block if type(b).__name__ == "DuplicateBlockKeyBlock" else b for b in split0.blocks]
     sx_blocks = [enc.enc_block(b) for b in raw]
-    again = Library(raw)
-    split1 = bibtexparser.parse_string(text, parse_stack=[])
-    assert [enc.enc_block(b, abstract_prev=True) for b in again.blocks] == [enc.enc_block(b, abstract_prev=True) for b in split1.blocks], \
-        "Library(unwrapped blocks) differs from the split library"
+    split1 = None
+    if stack is None or stack == "dflt-copy":
+        # (a fact about the document, not about the stack: checked once per document of the copy-placement stream, with the
+        # stack every document of that stream is parsed with)
+        again = Library(raw)
+        split1 = bibtexparser.parse_string(text, parse_stack=[])
+        assert [enc.enc_block(b, abstract_prev=True) for b in again.blocks] == [enc.enc_block(b, abstract_prev=True) for b in split1.blocks], \
+            "Library(unwrapped blocks) differs from the split library"
+    elif stack == "resolve-copy-transform":
+        split1 = bibtexparser.parse_string(text, parse_stack=[])
     rec = {"sx_in": [op, sx_blocks], "key": json.dumps([text, op] + ([stack] if stack else []))}
 
     def run():
